@@ -11,7 +11,11 @@
            the package-level array primitives.cubeVertIndices.
    slice   {ptr; len; cap}: the first len cells of array ptr, which has cap cells.  (No operation of the
            modelled API re-slices, so the offset into the array is always 0 and is left out.)
-   grow    the runtime's growth policy for append: a Section variable, nothing is assumed about it here. *)
+   grow    the runtime's growth policy for append: a Section variable, nothing is assumed about it here.
+   maps    Go maps are REFERENCES: a mesh as Go holds it (gmesh) names its four attribute maps by ids into a table
+           of maps (mheap; id 0 = the nil map).  [map_plan] says, per operation and attribute dimension, whether the
+           result shares the receiver's map, gets a freshly made one, or nil.  No operation of the repaired tree writes
+           an existing map; the defect class "an operation stores into a map another mesh shares" is [step_pad]. *)
 From Coq Require Import List NArith ZArith Bool Arith Lia.
 Import ListNotations.
 
@@ -164,12 +168,67 @@ Inductive op :=
          material, own material entry): attribute data copied once (readAllFloatNData), per part an index list
          appended three at a time, then RemovedUnreferencedVertices *)
 
-Record state := mkState { heap_of : heap; pool : list mesh }.
+(* a mesh value as Go holds it: slices by value, maps by reference *)
+Record gmesh := mkG { g_topo : topology; g_idx : slice; g_mats : slice; g_v1 : nat; g_v2 : nat; g_v3 : nat; g_v4 : nat }.
+Definition mheap := list amap.
+Definition mget (mh : mheap) (id : nat) : amap := nth id mh [].
+Definition gid (g : gmesh) (k : kind) : nat :=
+  match k with K1 => g_v1 g | K2 => g_v2 g | K3 => g_v3 g | K4 => g_v4 g end.
+(* dereference the maps: the mesh the operations of this file compute with *)
+Definition load (mh : mheap) (g : gmesh) : mesh :=
+  mkMesh (g_topo g) (g_idx g) (g_mats g) (mget mh (g_v1 g)) (mget mh (g_v2 g)) (mget mh (g_v3 g)) (mget mh (g_v4 g)).
+Definition nilg : gmesh := mkG Triangle (mkSlice 0 0 0) (mkSlice 0 0 0) 0 0 0 0.
+
+Record state := mkState { heap_of : heap; maps_of : mheap; pool : list gmesh }.
 
 Definition cube_indices : list cell :=
   map nat_cell [0;2;6; 0;6;4; 1;3;2; 1;2;0; 4;6;7; 4;7;5; 2;3;7; 2;7;6; 1;0;4; 1;4;5; 5;7;3; 5;3;1].
 Definition cube_slice := mkSlice 1 36 36.
-Definition init : state := mkState [[]; cube_indices] [].
+Definition init : state := mkState [[]; cube_indices] [[]] [].
+
+(* ---- which attribute maps a result shares with its receiver (read off the code) ------------------------------
+   MShare: the struct field is copied (value receiver returning Mesh{v3Data: m.v3Data, ...});
+   MFresh: make(map...) filled by this operation (SetFloatNAttribute copies the entries into a new map; SetFloatNData
+           stores the caller's new map; Append, Unweld, Weld, ... build every map anew);
+   MNil:   ClearAttributeData. *)
+Inductive mapsrc := MShare | MFresh | MNil.
+Definition kind_eqb (a b : kind) : bool :=
+  match a, b with K1, K1 | K2, K2 | K3, K3 | K4, K4 => true | _, _ => false end.
+Definition map_plan (o : op) (k : kind) : mapsrc :=
+  match o with
+  | OSetAttr k' _ _ _ _ | OCopyAttr k' _ _ _ | OMap k' _ _ _ _ _ _ | OSetData k' _ _ => if kind_eqb k k' then MFresh else MShare
+  | OSetIndices _ _ _ | OSetMaterial _ _ | OSetMaterials _ _ _ | OToPoints _ | OFlip _ | OIdent _ | OExport _ _ => MShare
+  | OClearAttrs _ => MNil
+  | _ => MFresh
+  end.
+(* the receiver *)
+Definition operand (o : op) : nat :=
+  match o with
+  | ONew _ _ _ | OEmpty _ | OCube _ _ _ _ => 0
+  | OAppend i _ | OSetAttr _ i _ _ _ | OCopyAttr _ i _ _ | OSetIndices i _ _ | OSetMaterial i _ | OSetMaterials i _ _
+  | OClearAttrs i | OMap _ i _ _ _ _ _ | OToPoints i | OFlip i | OUnweld i | ORemoveUnref i | OWeld i _ _ _
+  | ORepeat i _ _ | OExport _ i | OSetData _ i _ | OIdent i | OFilter _ i _ _ _ | OCrop i _ _ | OMulti i _ _ _ => i
+  end.
+
+Definition place (mh : mheap) (pl : mapsrc) (shared : nat) (a : amap) : mheap * nat :=
+  match pl with
+  | MShare => (mh, shared)
+  | MNil => (mh, 0)
+  | MFresh => (mh ++ [a], length mh)
+  end.
+(* the result [m] of an operation becomes a pool member: its maps are shared, made, or nil as the plan says *)
+Definition commit (mh : mheap) (o : op) (g0 : gmesh) (m : mesh) : mheap * gmesh :=
+  let (mh1, i1) := place mh (map_plan o K1) (g_v1 g0) (v1 m) in
+  let (mh2, i2) := place mh1 (map_plan o K2) (g_v2 g0) (v2 m) in
+  let (mh3, i3) := place mh2 (map_plan o K3) (g_v3 g0) (v3 m) in
+  let (mh4, i4) := place mh3 (map_plan o K4) (g_v4 g0) (v4 m) in
+  (mh4, mkG (topo m) (idx m) (mats m) i1 i2 i3 i4).
+Fixpoint commit_all (mh : mheap) (o : op) (g0 : gmesh) (ms : list mesh) : mheap * list gmesh :=
+  match ms with
+  | [] => (mh, [])
+  | m :: r => let (mh1, g) := commit mh o g0 m in
+              let (mh2, gs) := commit_all mh1 o g0 r in (mh2, g :: gs)
+  end.
 
 Section Model.
 Variable grow : nat -> nat -> nat.      (* new capacity when cap c does not hold n elements *)
@@ -533,10 +592,12 @@ Definition exec (fixed : bool) (h : heap) (p : list mesh) (o : op) : result :=
   end.
 
 Definition step (fixed : bool) (st : state) (o : op) : state * status :=
-  match exec fixed (heap_of st) (pool st) o with
-  | RNew h m => (mkState h (pool st ++ [m]), Ok)
-  | RMany h ms => (mkState h (pool st ++ ms), Ok)
-  | RSame h => (mkState h (pool st), Ok)
+  let mh := maps_of st in
+  let g0 := nth (operand o) (pool st) nilg in
+  match exec fixed (heap_of st) (map (load mh) (pool st)) o with
+  | RNew h m => let (mh', g) := commit mh o g0 m in (mkState h mh' (pool st ++ [g]), Ok)
+  | RMany h ms => let (mh', gs) := commit_all mh o g0 ms in (mkState h mh' (pool st ++ gs), Ok)
+  | RSame h => (mkState h mh (pool st), Ok)
   | RErr c => (st, c)
   end.
 
@@ -547,13 +608,45 @@ Definition run (fixed : bool) (ops : list op) (t : nat) : state := run_from fixe
 
 (* what pool member k reports in a state *)
 Definition observe_member (st : state) (k : nat) : option obs :=
-  option_map (observe (heap_of st)) (nth_error (pool st) k).
+  option_map (fun g => observe (heap_of st) (load (maps_of st) g)) (nth_error (pool st) k).
 
 Fixpoint trace (fixed : bool) (st : state) (ops : list op) : list (state * status) :=
   match ops with
   | [] => []
   | o :: r => let (st', c) := step fixed st o in (st', c) :: trace fixed st' r
   end.
+
+(* ---- the defect class "an operation writes a map that other meshes share" ---------------------------------------
+   An Append that first aligns the attribute sets of its operands by storing zero-filled arrays INTO THE OPERANDS' OWN
+   MAPS (a[atr] = nilData(aLen) for every attribute only b carries, and vice versa) and then concatenates.  *)
+Fixpoint pad_into (h : heap) (a b : amap) (n : nat) (k : kind) : heap * amap :=
+  match b with
+  | [] => (h, a)
+  | (name, _) :: r =>
+      if amap_mem a name then pad_into h a r n k
+      else let (h1, s) := new_slice h (repeat (zero_of k) n) 0 in pad_into h1 (amap_set a name s) r n k
+  end.
+Definition pad_kind (gi gj : gmesh) (ni nj : nat) (hm : heap * mheap) (k : kind) : heap * mheap :=
+  let (h, mh) := hm in
+  let (h1, a') := pad_into h (mget mh (gid gi k)) (mget mh (gid gj k)) ni k in
+  let mh1 := upd mh (gid gi k) a' in                         (* map write *)
+  let (h2, b') := pad_into h1 (mget mh1 (gid gj k)) a' nj k in
+  (h2, upd mh1 (gid gj k) b').                               (* map write *)
+Definition step_pad (st : state) (o : op) : state * status :=
+  match o with
+  | OAppend i j =>
+      match nth_error (pool st) i, nth_error (pool st) j with
+      | Some gi, Some gj =>
+          let ni := attr_length (load (maps_of st) gi) in
+          let nj := attr_length (load (maps_of st) gj) in
+          let (h, mh) := fold_left (pad_kind gi gj ni nj) [K1; K2; K3; K4] (heap_of st, maps_of st) in
+          step true (mkState h mh (pool st)) o
+      | _, _ => step true st o
+      end
+  | _ => step true st o
+  end.
+Definition run_pad (ops : list op) (t : nat) : state :=
+  fold_left (fun s o => fst (step_pad s o)) (firstn t ops) init.
 
 End Model.
 
